@@ -135,7 +135,7 @@ pub fn replay_gtext(id: &str, ctx: &mut Ctx, data: &[u8]) -> Result<Option<Strin
     match id {
         "C11" => c11::fuzz_text(&text).map(|_| None),
         "C12" => c12::fuzz_text([data[0], data[1], data[2]], &text, ctx.open(c12::K6)).map(|k| k.map(str::to_string)),
-        "C14" => c14::fuzz_text(&text).map(|_| None),
+        "C14" => c14::fuzz_text(data[0], &text).map(|_| None),
         _ => Err(Fail::new("the grammar target covers C11, C12 and C14", "gtext", data.to_vec())),
     }
 }
